@@ -276,7 +276,16 @@ def check_cdata_path(chk, ix):
         raise AnalysisError("anchor missing: behave.reporter.junit:_serialize_xml3")
     chk.instance("J1")
     calls = [unparse(n) for n in ast.walk(ser.node) if isinstance(n, ast.Call) and unparse(n.func) == "escape_CDATA"]
-    guarded = any(isinstance(n, ast.If) and "![CDATA[" in unparse(n.test) and any("escape_CDATA" in unparse(b) for b in n.body)
+    def _mentions_cdata_tag(test):
+        for x in ast.walk(test):
+            if isinstance(x, (ast.Constant, ast.Name, ast.Attribute)):
+                try:
+                    if ix.fold(x, mod) == "![CDATA[":
+                        return True
+                except Exception:       # noqa  (not a constant)
+                    pass
+        return False
+    guarded = any(isinstance(n, ast.If) and _mentions_cdata_tag(n.test) and any("escape_CDATA" in unparse(b) for b in n.body)
                   for n in ast.walk(ser.node))
     if calls and guarded and any("elem.text" in c for c in calls):
         chk.ok("J1", {"serializer": "CDATA text passes escape_CDATA"}, nontrivial_key="serializer")
